@@ -32,3 +32,4 @@ Print Assumptions C17_invariants.
 Example C17_legal_example :
   legalR [((false, 1%positive), (true, 2%positive)); ((false, 3%positive), (false, 2%positive))] empty_rel.
 Proof. vm_compute. repeat split; intros H; discriminate H. Qed.
+Print Assumptions C17_legal_example.
